@@ -99,8 +99,12 @@ def work(case):
         fn = obs.extractor(kind)
         n = 0
         try:
-            for _ in fn(io.BytesIO(data), "dir/in" + ext):
+            for r in fn(io.BytesIO(data), "dir/in" + ext):
                 n += 1
+                # consuming a mail result includes walking its supported attachments
+                if hasattr(r, "iterate_supported_attachments"):
+                    for _ in r.iterate_supported_attachments():
+                        out["n_attachment_results"] = out.get("n_attachment_results", 0) + 1
         except BaseException as e:
             if type(e).__name__ == "CpuBudget":
                 raise
@@ -225,6 +229,8 @@ def gen_cases(run):
     for name in ("7z-huge-file-count", "7z-huge-stream-count", "zip-huge-entry-count", "7z-self-referential-encoded-header", "7z-encoded-header-chain"):
         sources.setdefault("zip", []).append(["synth", name])
     sources.setdefault("docx", []).append(["synth", "docx-equations-nested-48"])
+    for name in ("msg-attachment-type-case", "msg-attachment-type-case+name-without-extension", "msg-attachment-name-without-extension", "msg-attachment-type-padded"):
+        sources.setdefault("msg", []).append(["synth", name])
     for name in ("epub-hrefs-climb-1", "epub-hrefs-climb-2", "epub-hrefs-climb-3", "epub-hrefs-absolute", "epub-hrefs-dotdot-inside"):
         sources.setdefault("epub", []).append(["synth", name])
     all_src = [(k, s) for k, v in sources.items() for s in v]
